@@ -67,6 +67,7 @@ def engToken (c : EngCase) (tok : String) : Option EngCase :=
     | "sep" => (hexArg v).map fun b => { c with cfg := { c.cfg with menuSep := b } }
     | "roe" => some { c with cfg := { c.cfg with resetOnEmpty := v = "1" } }
     | "wf" => some c
+    | "res" => some c   -- which resource implementation the harness served the case with
     | "node" => match v.splitOn ":" with
       | [s, code] => do pure { c with nodes := c.nodes ++ [((← hexArg s), (← hexArg code))] }
       | _ => none
